@@ -279,6 +279,17 @@ package allocator
 //@   ensures da.allocator.nonnil && da.allocator.distinct && da.allocator.total && da.allocator.fwd && da.allocator.rev && da.allocator.bits
 //@   ensures da.allocator.cnt
 
+// cleanupExpiredFromStore (lease mode, run by the epoch tick): a record leaves the store only when
+// its lease is older than every grace period the allocator can be configured with (EpochGrace <= 2):
+// epoch + 2 < current epoch. Deleting a record whose lease is still valid would, through the
+// watcher, release a live lease and lose it on restart ("each subscriber recorded in the store maps
+// to the same address after restart").
+//@ func (da *DistributedAllocator) cleanupExpiredFromStore
+//@   ensures currentEpoch < 2 ==> storeDeletes == old(storeDeletes)
+
+//@ loop DistributedAllocator.cleanupExpiredFromStore#1
+//@   iteration storeDeletes != iter(storeDeletes) ==> alloc.Epoch + 2 < currentEpoch
+
 //@ func (da *DistributedAllocator) loadAllocations
 //@   mode seq
 //@   requires sessionMode(da)
